@@ -181,6 +181,8 @@ def wi (s : String) (t : FTok) : W String := ⟨s, t⟩
 def dataLoop : Nat → List (W Word) → P (List (W Word))
   | 0, acc => pure acc.reverse
   | fuel + 1, acc => do
+    -- the list also ends with the file
+    if (← get).items.isEmpty then return acc.reverse
     let next ← peekAny
     if next.kind == .newline then
       let _ ← getAny
